@@ -55,6 +55,23 @@ Fixpoint lit_ok (e : expr) : bool :=
        (fix ss (l : list step) : bool := match l with [] => true | (_, _, ps) :: r => (prs ps && ss r)%bool end) st)%bool
   end.
 
+(* the shapes of fixes/C09c/01_pattern_grammar.patch: translator/gen_patc.py recognises which text each function has *)
+Record pflags := mkpf {
+  px_args : bool;     (* Argument(): a required literal is compiled as a literal and must be followed by ',' or ')' *)
+  px_count : bool;    (* IdKeyPattern(): id takes one argument, key two *)
+  px_lpp : bool       (* LocationPathPattern(): no empty alternative, no '///', a separator between an id()/key() head and a step *)
+}.
+Definition pflags_here : pflags := mkpf gen_patc_fix_args gen_patc_fix_count gen_patc_fix_lpp.
+Definition pflags_before : pflags := mkpf false false false.
+Definition pflags_fixed : pflags := mkpf true true true.
+
+Definition is_elit (e : expr) : bool := match e with ELiteral _ => true | _ => false end.
+(* what IdKeyPattern() lets through: f is what FunctionCall() compiled, is_key = tokenIs(s_functionKeyString) on entry *)
+Definition head_call_ok (pf : pflags) (is_key : bool) (f : expr) : bool :=
+  ((if px_args pf then match f with EFunc _ args => forallb is_elit args | _ => false end else lit_ok f) &&
+   (if px_count pf then match f with EFunc _ args => Nat.eqb (length args) (if is_key then 2 else 1) | _ => false end
+    else true))%bool.
+
 Definition head_root : pstep := (PkRoot, TRoot, []).
 Definition head_anyp : pstep := (PkAnyAncestorWithPredicate, TNode, []).
 Definition head_fn (f : expr) : pstep := (PkFunction f, TNode, []).
@@ -62,6 +79,7 @@ Definition head_anyf : pstep := (PkAnyAncestorWithFunctionCall, TNode, []).
 
 Section PatParse.
 Variable fl : flags.
+Variable pf : pflags.
 Variable ns : str -> option str.
 Variable pe : nat -> list tok -> res (expr * list tok).     (* Expr(), with its own fuel *)
 Variable lf : nat.                                          (* fuel of the loops *)
@@ -113,7 +131,9 @@ Definition is_idkey (ts : list tok) : bool :=
 Definition pp_head (ts : list tok) : res (list pstep * bool * list tok) :=
   if is_idkey ts then
     bind (f, t1) <- p_funcall fl ns pe lf 0 ts;                        (* IdKeyPattern() *)
-    if negb (lit_ok f) then Err                                        (* LiteralArgumentIsRequired *)
+    if negb (head_call_ok pf (tok_is ts kw_key) f) then Err            (* LiteralArgumentIsRequired / argument count *)
+    else if (px_lpp pf && negb (isnil t1) && negb (N.eqb (tokc t1) ch_solidus) && negb (N.eqb (tokc t1) ch_bar))%bool
+         then Err                                                      (* UnexpectedTokenFound: "id('x')a" (repaired shape) *)
     else if is_dslash t1 then Ok ([head_fn f; head_anyf], false, tl t1)
     else Ok ([head_fn f], false, t1)
   else if N.eqb (tokc ts) ch_solidus then
@@ -121,15 +141,26 @@ Definition pp_head (ts : list tok) : res (list pstep * bool * list tok) :=
      else Ok ([head_root], false, tl ts))
   else Ok ([], false, ts).
 
-(* LocationPathPattern(); after_bar: the token before ts is '|' *)
-Definition pp_lpp (after_bar : bool) (ts : list tok) : res (lpattern * list tok) :=
-  bind (hd, req, ts1) <- pp_head ts;
+(* LocationPathPattern() behind its head; after_bar: the token before the alternative is '|' *)
+Definition pp_tail (after_bar : bool) (hd : list pstep) (req : bool) (ts1 : list tok) : res (lpattern * list tok) :=
+  if px_lpp pf then                                                     (* the repaired shape *)
+    (if (negb (isnil ts1) && negb (N.eqb (tokc ts1) ch_bar))%bool then
+       (if (req && N.eqb (tokc ts1) ch_solidus)%bool then Err          (* "///a" *)
+        else bind (ss, ts2) <- pp_steps lf ts1; Ok (hd ++ ss, ts2))
+     else if (req || isnil hd)%bool then Err                            (* '//' alone; an empty alternative *)
+     else Ok (hd, ts1))
+  else
   if (req && (isnil ts1 || N.eqb (tokc ts1) ch_bar))%bool then Err      (* ExpectedNodeTest *)
   else if isnil ts1 then Ok (hd, ts1)
   else if negb (N.eqb (tokc ts1) ch_bar) then
     bind (ss, ts2) <- pp_steps lf ts1; Ok (hd ++ ss, ts2)
   else if (after_bar && isnil hd)%bool then Err                         (* lookahead('|', -1): UnexpectedTokenFound *)
   else Ok (hd, ts1).
+
+(* LocationPathPattern() *)
+Definition pp_lpp (after_bar : bool) (ts : list tok) : res (lpattern * list tok) :=
+  bind (hd, req, ts1) <- pp_head ts;
+  pp_tail after_bar hd req ts1.
 
 (* Pattern() *)
 Fixpoint pp_pattern (m : nat) (after_bar : bool) (ts : list tok) : res (pattern * list tok) :=
@@ -145,23 +176,23 @@ Fixpoint pp_pattern (m : nat) (after_bar : bool) (ts : list tok) : res (pattern 
 End PatParse.
 
 (* initMatchPattern after tokenize(): nextToken(); Pattern(); anything left is ExtraIllegalTokens *)
-Definition pparse (fl : flags) (ns : str -> option str) (ts : list tok) : res pattern :=
+Definition pparse (fl : flags) (pf : pflags) (ns : str -> option str) (ts : list tok) : res pattern :=
   let n := S (length ts) in
-  match pp_pattern fl ns (p_expr fl ns n) (S n) (S n) false ts with
+  match pp_pattern fl pf ns (p_expr fl ns n) (S n) (S n) false ts with
   | Ok (p, []) => Ok p
   | Ok (_, _ :: _) => Err
   | Err => Err
   | Fuel => Fuel
   end.
 
-Definition pcompile (fl : flags) (ns : str -> option str) (s : str) : res pattern :=
+Definition pcompile (fl : flags) (pf : pflags) (ns : str -> option str) (s : str) : res pattern :=
   match tokenize fl ns s with
-  | Ok ts => pparse fl ns ts
+  | Ok ts => pparse fl pf ns ts
   | Err => Err
   | Fuel => Fuel
   end.
 
-Definition pcompile_here (ns : str -> option str) (s : str) : res pattern := pcompile flags_here ns s.
+Definition pcompile_here (ns : str -> option str) (s : str) : res pattern := pcompile flags_here pflags_here ns s.
 
 (* the Pattern grammar has no empty alternative; the compiler accepts one at the very start ("|a") and at the very end
    ("a|") of a pattern — see Properties_C09c.pattern_alternatives_nonempty_refuted *)
